@@ -1702,3 +1702,12 @@ package resolve
 //@   modifies *, count(*)
 //@   safety lockbalance-off
 //@   safety no-nilmap
+
+// C07/C08: errors collected so far are never dropped, whatever the completion order of the fetches: the error
+// array of a loader is created once (when the first error arrives) and from then on only appended to
+//@ decl stable Loader.errors by Loader.Init, Loader.ensureErrorsInitialized
+//@ func Loader.ensureErrorsInitialized
+//@   requires l != nil
+//@   ensures {an.existing.error.array.is.kept} old(l.errors) != nil ==> l.errors == old(l.errors)
+//@   ensures {initialised} l.errors != nil
+//@   modifies l.errors, global(jver), global(ext)
